@@ -434,7 +434,9 @@ theorem C20_predicted_only_undisciplined (tab : List Field) (ty fld f1 f2 : Text
 /-- The fields of today's tree without a discipline (defect family D32): literal, compared with the regenerated table
     by `C20_undisciplined_witness`. When a defect is repaired its line goes away here. -/
 def knownUndisciplined : List (Text × Text) :=
-  [(t!"sseClientTransport", t!"endpoint"),
+  [(t!"Client", t!"initialized"),
+   (t!"Client", t!"state"),
+   (t!"sseClientTransport", t!"endpoint"),
    (t!"stdioClientTransport", t!"process"),
    (t!"stdioClientTransport", t!"stderr"),
    (t!"stdioClientTransport", t!"stdin"),
